@@ -390,6 +390,15 @@ def r3_run_sentinels(ctx: Ctx) -> None:
                         neg = bool(getattr(k.value, "value", False))
                 if len(c.args) > 1:
                     neg = bool(getattr(c.args[1], "value", False))
+                if lit is None and cand is not None:
+                    from ..const import ConstEval, NotConst
+
+                    try:
+                        v = ConstEval(ctx.repo, fn.module).ev(cand)
+                        if isinstance(v, str):
+                            lit = v
+                    except (NotConst, AnalysisError):
+                        pass
                 if lit is None:
                     raise AnalysisError(f"{fn.where}: run candidates `{unparse(cand) if cand else None}` are not a literal")
                 construct = f"{fn.where}:{unparse(c)[:50]}"
@@ -542,4 +551,33 @@ def r5_backup_balance(ctx: Ctx) -> None:
     ctx.floor("backups", 2)
 
 
-RULES = [r1_progress, r2_end_of_input, r3_run_sentinels, r4_recursion, r5_backup_balance]
+def r6_regexes_not_exponential(ctx: Ctx) -> None:
+    """every regular-expression literal matched against source or table text has no exponentially ambiguous repetition: the
+    backtracking matcher would otherwise need 2^n steps on a line of n characters that fails to match (a hang in practice)"""
+    from ..regexamb import Unsupported, exponentially_ambiguous
+
+    n = 0
+    for mi in ctx.repo.modules.values():
+        for c in [x for x in ast.walk(mi.tree) if isinstance(x, ast.Call)]:
+            cn = call_name(c) or ""
+            if not (cn.startswith("re.") and cn.split(".")[1] in ("compile", "match", "search", "fullmatch", "sub", "subn", "split", "findall", "finditer")):
+                continue
+            n += 1
+            pat = c.args[0] if c.args else None
+            if not (isinstance(pat, ast.Constant) and isinstance(pat.value, str)):
+                raise AnalysisError(f"{mi.relpath}: regular expression `{unparse(pat)[:50] if pat is not None else None}` is not a literal")
+            flags = 0
+            for a in list(c.args[1:]) + [k.value for k in c.keywords if k.arg == "flags"]:
+                for nm in [x.attr for x in ast.walk(a) if isinstance(x, ast.Attribute)]:
+                    flags |= int(getattr(__import__("re"), nm, 0))
+            try:
+                amb, why = exponentially_ambiguous(pat.value, flags)
+            except Unsupported as e:
+                raise AnalysisError(f"{mi.relpath}: regular expression {pat.value!r}: {e}") from e
+            ctx.check(not amb, f"{mi.relpath}:re {pat.value[:60]!r}", "no exponentially ambiguous repetition" if not amb else
+                      f"exponentially ambiguous: {why}; a line that fails to match after such a run takes 2^n matcher steps")
+    ctx.count("regex_literals", n)
+    ctx.floor("regex_literals", 2)
+
+
+RULES = [r1_progress, r2_end_of_input, r3_run_sentinels, r4_recursion, r5_backup_balance, r6_regexes_not_exponential]
